@@ -254,7 +254,7 @@ func runCheck(id, tier string, replay string, patches []string, quiet bool) int 
 	defer os.RemoveAll(scratch)
 	cmd := exec.Command(bin, args...)
 	cmd.Dir = scratch
-	cmd.Env = append(goEnv(), "VERIF_SCRATCH="+scratch, "VERIF_BIN="+bin, "TMPDIR="+scratch, "GOLOG_LOG_LEVEL=fatal")
+	cmd.Env = append(goEnv(), "VERIF_SCRATCH="+scratch, "VERIF_BIN="+bin, "TMPDIR="+scratch, "GOLOG_LOG_LEVEL=error", "GOLOG_OUTPUT=file", "GOLOG_FILE=/dev/null")
 	cmd.Env = append(cmd.Env, h.Env...)
 	if quiet {
 		out, err := cmd.CombinedOutput()
